@@ -55,8 +55,10 @@ def run(prop, tier, seed, extra_assumptions=()):
     vd = D.Verdict(prop, tier, seed)
     ctx = C.Ctx()
     covs, failed = [], {}
-    for unit, fns in plan["units"]:
-        cov, f, undec = D.run_det_unit(ctx, unit, only=set(fns) if fns else None)
+    import concurrent.futures as cf
+    with cf.ThreadPoolExecutor(max_workers=8) as ex:
+        results = list(ex.map(lambda uf: D.run_det_unit(C.Ctx(), uf[0], only=set(uf[1]) if uf[1] else None), plan["units"]))
+    for cov, f, undec in results:
         covs.append(cov)
         failed.update(f)
         for u in undec:
